@@ -12,6 +12,13 @@ import specrt
 from common import dump
 
 
+# one-line named functions with an ANNOTATED parameter (string annotations: legal constants)
+def _f_met(e: "Event") -> float: return e.met()
+def _f_jets(e: "Event"): return e.Jets()
+def _f_cut(e: "Event") -> bool: return e.met() > 1
+def _f_notbool(e: "Event") -> float: return e.met() + 1
+
+
 def make_world():
     from func_adl import EventDataset
 
@@ -78,6 +85,8 @@ class Hist:
         self.props = props
         DS, Event, Jet = make_world()
         self.DS, self.Event = DS, Event
+        # the annotations of the named functions above resolve to this model's Event class
+        globals()["Event"] = Event
         self.datasets = []
         self.streams = []      # dicts: stream, dump, item_type, root ds index, qmd model, desc
         self.shared = {k: [ast.parse(s).body[0].value for s in v] for k, v in LAMBDAS.items()}
@@ -178,6 +187,22 @@ class Hist:
                              "was being built", " ; ".join(self.log), 0, self.total_calls() - before,
                              {"kind": "hist", "log": self.log})
         j = self.add(new, r["root"], qmd, desc)
+        self.check_all(desc)
+        return j
+
+    def op_derive_fn(self, i, op, fn):
+        """An operator given a NAMED function (annotated parameter); a refusal is a legal outcome,
+        a change of any existing stream is not."""
+        r = self.streams[i]
+        desc = f"s{len(self.streams)}=s{i}.{op}(def:{fn.__name__})"
+        self.log.append(desc)
+        try:
+            new = getattr(r["s"], op)(fn)
+        except ValueError as ex:
+            self.log[-1] = desc + f" -> ValueError"
+            self.check_all(self.log[-1])
+            return None
+        j = self.add(new, r["root"], r["qmd"], desc)
         self.check_all(desc)
         return j
 
@@ -440,10 +465,52 @@ def directed_qmd(t, props):
                 t.case("hist:" + " ; ".join(h.log), True, sample=" ; ".join(h.log)[:300])
 
 
+def directed_named_functions(t, props):
+    """Named functions with annotated parameters given to the operators of untyped and typed
+    streams, siblings derived before and after (seed C11_g: the annotation was written back as the
+    item type of the stream the operator was called on)."""
+    for typed in (False, True):
+        for op, fn in (("Select", _f_met), ("Select", _f_jets), ("Where", _f_cut),
+                       ("Where", _f_notbool), ("SelectMany", _f_jets)):
+            h = Hist(t, props)
+            r = h.op_new(typed)
+            d0 = h.op_derive(r, "Select", 0, 0)
+            h.op_derive_fn(r, op, fn)
+            h.op_derive(r, "Select", 1, 0)
+            h.op_derive_fn(d0, "Select", _f_notbool) if not typed else None
+            h.op_derive(r, "Where", 0, 0)
+            h.op_value(d0, "own", None)
+            t.case("hist:" + " ; ".join(h.log), True, sample=" ; ".join(h.log)[:300])
+
+
+def directed_qmd_after_run(t, props):
+    """An EMPTY MetaData wrapper directly under the node that carries query metadata, operators on
+    top, then value(): the run removes the empty wrapper from the executor's copy only - the
+    stream keeps its query and its query metadata, also for streams derived afterwards (seed
+    C16_g: a copy-on-write cleaner rewired the stream's own node past the wrapper)."""
+    for a in range(4):
+        for typed in (False, True):
+            for op in ("Select", "Where"):
+                h = Hist(t, props)
+                r = h.op_new(typed)
+                m = h.op_derive(r, "MetaData", 0, 0)
+                x = h.op_derive(m, "QMetaData", a, 0)
+                s = h.op_derive(x, op, 0, 0)
+                h.op_value(s, "own", None)
+                w = h.op_derive(s, "Select" if op == "Where" else "Where", 0, 0)
+                h.op_value(x, "own", None)
+                h.op_derive(x, "QMetaData", (a + 1) % len(QMDS), 0)
+                h.op_value(w, "own", None)
+                t.case("hist:" + " ; ".join(h.log), True, sample=" ; ".join(h.log)[:300])
+
+
 def run_histories(t, props):
     directed_histories(t, props)
     if "C16" in props:
         directed_qmd(t, props)
+    directed_qmd_after_run(t, props)
+    if "C11" in props:
+        directed_named_functions(t, props)
     rng = t.rng
     quick = t.tier == "quick"
     n_hist = 150 if quick else 1500
